@@ -177,6 +177,7 @@ fn library_server(c: &Case, kind: c09::Kind, fail_after: Option<usize>) -> Socke
         depth: 2,
         zstd: c.zstd,
         fail_after,
+        fail_by_panic: fail_after.is_some() && c.seed % 3 == 0,
         pace: 0,
         cancel_after: None,
     };
@@ -521,6 +522,7 @@ pub fn child(sub: &str) -> i32 {
         depth: 1,
         zstd: c.base.zstd,
         fail_after: None,
+        fail_by_panic: false,
         pace: 0,
         cancel_after: None,
     };
